@@ -531,10 +531,15 @@ def run(ctx):
     a, bad1 = run_batch(ctx, exe_s, scen, "asan", env, "controlled scheduler")
     merge(agg, a)
     scen_r = regression_scenarios(ctx, False, "rp") + gen_scenarios(ctx, n_real, False, "p")
-    a, bad2 = run_batch(ctx, exe_p, scen_r, "asan", env, "real scheduling + perturbation")
-    merge(agg, a)
+    broken_badly = bad1 > 40      # already refuted many times over: do not spend watchdog periods on real-scheduling hangs
+    if broken_badly:
+        ctx.log("more than 40 failing scenarios under the controlled scheduler: skipping the real-scheduling, TSan and trace batches")
+        scen_r, bad2 = [], 0
+    else:
+        a, bad2 = run_batch(ctx, exe_p, scen_r, "asan", env, "real scheduling + perturbation")
+        merge(agg, a)
     tsan_info = {}
-    if not quick:
+    if not quick and not broken_badly:
         scen_f = fallback_scenarios(ctx, "fb")
         a, badf = run_batch(ctx, exe_p, scen_f, "asan", env, "incompressible fallback (20 MiB Blocks)")
         merge(agg, a)
@@ -555,7 +560,7 @@ def run(ctx):
     ctx.cov["correspondence"] = {"direct_oracle_scenarios_controlled": len(scen), "direct_oracle_scenarios_real": len(scen_r),
                                  "not_ok": bad1 + bad2, "tsan": tsan_info, "totals": agg, "h3_hook_applied": hook_applied()}
     # ---- K (3): trace inclusion
-    if events and p_ok:
+    if events and p_ok and not broken_badly:
         trace_inclusion(ctx, exe_s, env)
     elif not events:
         ctx.cov["correspondence"]["trace_inclusion"] = "skipped: hook H3 (hooks/h3-mtenc.patch) is not applied to " + vlib.REPO
